@@ -112,3 +112,27 @@ Proof.
       * rewrite H2 by lia. reflexivity.
       * rewrite H3 by lia. destruct guard; reflexivity.
 Qed.
+
+(* ---- the escape branch ---- *)
+Lemma scan_format_guarded_gen : forall k s, (length s <= k)%nat -> scan_format true s <> ScanOverrun.
+Proof.
+  induction k as [|k IH]; intros s Hk.
+  - destruct s; [cbn; discriminate | cbn in Hk; lia].
+  - destruct s as [|c rest]; [cbn; discriminate|]. cbn [scan_format]. cbn in Hk.
+    destruct (c =? 92).
+    + destruct rest as [|d rest']; [discriminate|]. apply IH. cbn in Hk. lia.
+    + apply IH. lia.
+Qed.
+
+Lemma scan_format_guarded s : scan_format true s <> ScanOverrun.
+Proof. apply (scan_format_guarded_gen (length s)). lia. Qed.
+
+(* without the test, a lone backslash at the end of a format with no other backslash overruns *)
+Lemma scan_format_unguarded_overrun s :
+  Forall (fun c => c <> 92) s -> scan_format false (s ++ [92]) = ScanOverrun.
+Proof.
+  induction s as [|c rest IH]; intros H; [reflexivity|].
+  inversion H as [|? ? Hc Hrest]; subst. cbn [app scan_format].
+  replace (c =? 92) with false by (symmetry; apply Z.eqb_neq; exact Hc).
+  apply IH. exact Hrest.
+Qed.
